@@ -1,6 +1,8 @@
 package adapt
 
 import (
+	"context"
+	"sync/atomic"
 	"github.com/aws/aws-sdk-go/aws"
 	v1ddb "github.com/aws/aws-sdk-go/service/dynamodb"
 	v1client "github.com/truora/minidyn/aws-v1/client"
@@ -8,8 +10,17 @@ import (
 	"verifharness/val"
 )
 
-// V1 drives the SDK v1 fake client.
-type V1 struct{ C *v1client.Client }
+// V1 drives the SDK v1 fake client. Every other call goes through the <Op>WithContext variant of the
+// method (both are part of the dynamodbiface.DynamoDBAPI surface the fake implements).
+type V1 struct {
+	C     *v1client.Client
+	calls int64 // atomic: the adapter is shared by the goroutines of the concurrency monitors
+}
+
+func (c *V1) viaContext() bool {
+	return atomic.AddInt64(&c.calls, 1)%2 == 0
+}
+
 
 // NewV1 returns a fresh SDK v1 client.
 func NewV1() *V1 { return &V1{C: v1client.NewClient()} }
@@ -171,11 +182,11 @@ func (c *V1) Do(op Op) (out Outcome) {
 	case OpPut:
 		in := &v1ddb.PutItemInput{TableName: aws.String(op.Table), Item: ItemToV1(op.Item), ConditionExpression: strp(op.Cond),
 			ExpressionAttributeNames: v1Names(op.Names), ExpressionAttributeValues: ItemToV1(op.Values)}
-		_, err := c.C.PutItem(in)
+		_, err := c.callPutItem(in)
 		return fin(err)
 	case OpGet:
 		in := &v1ddb.GetItemInput{TableName: aws.String(op.Table), Key: ItemToV1(op.Key)}
-		res, err := c.C.GetItem(in)
+		res, err := c.callGetItem(in)
 		o := fin(err)
 		if err == nil {
 			if res == nil {
@@ -188,7 +199,7 @@ func (c *V1) Do(op Op) (out Outcome) {
 	case OpUpdate:
 		in := &v1ddb.UpdateItemInput{TableName: aws.String(op.Table), Key: ItemToV1(op.Key), UpdateExpression: aws.String(op.Update),
 			ConditionExpression: strp(op.Cond), ExpressionAttributeNames: v1Names(op.Names), ExpressionAttributeValues: ItemToV1(op.Values)}
-		res, err := c.C.UpdateItem(in)
+		res, err := c.callUpdateItem(in)
 		o := fin(err)
 		if err == nil {
 			if res == nil {
@@ -204,7 +215,7 @@ func (c *V1) Do(op Op) (out Outcome) {
 		if op.RetOld {
 			in.ReturnValues = aws.String("ALL_OLD")
 		}
-		res, err := c.C.DeleteItem(in)
+		res, err := c.callDeleteItem(in)
 		o := fin(err)
 		if err == nil {
 			if res == nil {
@@ -227,7 +238,7 @@ func (c *V1) Do(op Op) (out Outcome) {
 		if op.Rev {
 			in.ScanIndexForward = aws.Bool(false)
 		}
-		res, err := c.C.Query(in)
+		res, err := c.callQuery(in)
 		o := fin(err)
 		if err == nil {
 			if res == nil {
@@ -246,7 +257,7 @@ func (c *V1) Do(op Op) (out Outcome) {
 		if op.Limit > 0 {
 			in.Limit = aws.Int64(int64(op.Limit))
 		}
-		res, err := c.C.Scan(in)
+		res, err := c.callScan(in)
 		o := fin(err)
 		if err == nil {
 			if res == nil {
@@ -270,7 +281,7 @@ func (c *V1) Do(op Op) (out Outcome) {
 			}
 			in.RequestItems[e.Table] = append(in.RequestItems[e.Table], wr)
 		}
-		res, err := c.C.BatchWriteItem(in)
+		res, err := c.callBatchWriteItem(in)
 		o := fin(err)
 		if res != nil {
 			for t, reqs := range res.UnprocessedItems {
@@ -293,24 +304,24 @@ func (c *V1) Do(op Op) (out Outcome) {
 		// SDK v1 adapter does not implement BatchGetItem (embedded nil interface).
 		return Outcome{Class: ClsNotImpl}
 	case OpTransact:
-		_, err := c.C.TransactWriteItems(&v1ddb.TransactWriteItemsInput{})
+		_, err := c.callTransactWriteItems(&v1ddb.TransactWriteItemsInput{})
 		return fin(err)
 	case OpCreateTable:
-		res, err := c.C.CreateTable(v1CreateInput(op.Spec))
+		res, err := c.callCreateTable(v1CreateInput(op.Spec))
 		o := fin(err)
 		if err == nil && res != nil {
 			o.Desc = v1Desc(res.TableDescription)
 		}
 		return o
 	case OpDeleteTable:
-		res, err := c.C.DeleteTable(&v1ddb.DeleteTableInput{TableName: aws.String(op.Table)})
+		res, err := c.callDeleteTable(&v1ddb.DeleteTableInput{TableName: aws.String(op.Table)})
 		o := fin(err)
 		if err == nil && res != nil {
 			o.Desc = v1Desc(res.TableDescription)
 		}
 		return o
 	case OpDescribe:
-		res, err := c.C.DescribeTable(&v1ddb.DescribeTableInput{TableName: aws.String(op.Table)})
+		res, err := c.callDescribeTable(&v1ddb.DescribeTableInput{TableName: aws.String(op.Table)})
 		o := fin(err)
 		if err == nil {
 			if res == nil {
@@ -335,12 +346,15 @@ func (c *V1) Do(op Op) (out Outcome) {
 			if ch.Delete != "" {
 				u.Delete = &v1ddb.DeleteGlobalSecondaryIndexAction{IndexName: aws.String(ch.Delete)}
 			}
+			if ch.Update != "" {
+				u.Update = &v1ddb.UpdateGlobalSecondaryIndexAction{IndexName: aws.String(ch.Update), ProvisionedThroughput: v1Throughput()}
+			}
 			in.GlobalSecondaryIndexUpdates = append(in.GlobalSecondaryIndexUpdates, u)
 		}
 		for _, n := range ad.order {
 			in.AttributeDefinitions = append(in.AttributeDefinitions, &v1ddb.AttributeDefinition{AttributeName: aws.String(n), AttributeType: aws.String(ad.typ[n])})
 		}
-		res, err := c.C.UpdateTable(in)
+		res, err := c.callUpdateTable(in)
 		o := fin(err)
 		if err == nil && res != nil {
 			o.Desc = v1Desc(res.TableDescription)
@@ -363,4 +377,88 @@ func (c *V1) Do(op Op) (out Outcome) {
 		return Outcome{Class: ClsOK}
 	}
 	return Outcome{Class: "Other:unknown-op"}
+}
+
+func (c *V1) callPutItem(in *v1ddb.PutItemInput) (*v1ddb.PutItemOutput, error) {
+	if c.viaContext() {
+		return c.C.PutItemWithContext(context.Background(), in)
+	}
+	return c.C.PutItem(in)
+}
+
+func (c *V1) callGetItem(in *v1ddb.GetItemInput) (*v1ddb.GetItemOutput, error) {
+	if c.viaContext() {
+		return c.C.GetItemWithContext(context.Background(), in)
+	}
+	return c.C.GetItem(in)
+}
+
+func (c *V1) callUpdateItem(in *v1ddb.UpdateItemInput) (*v1ddb.UpdateItemOutput, error) {
+	if c.viaContext() {
+		return c.C.UpdateItemWithContext(context.Background(), in)
+	}
+	return c.C.UpdateItem(in)
+}
+
+func (c *V1) callDeleteItem(in *v1ddb.DeleteItemInput) (*v1ddb.DeleteItemOutput, error) {
+	if c.viaContext() {
+		return c.C.DeleteItemWithContext(context.Background(), in)
+	}
+	return c.C.DeleteItem(in)
+}
+
+func (c *V1) callQuery(in *v1ddb.QueryInput) (*v1ddb.QueryOutput, error) {
+	if c.viaContext() {
+		return c.C.QueryWithContext(context.Background(), in)
+	}
+	return c.C.Query(in)
+}
+
+func (c *V1) callScan(in *v1ddb.ScanInput) (*v1ddb.ScanOutput, error) {
+	if c.viaContext() {
+		return c.C.ScanWithContext(context.Background(), in)
+	}
+	return c.C.Scan(in)
+}
+
+func (c *V1) callBatchWriteItem(in *v1ddb.BatchWriteItemInput) (*v1ddb.BatchWriteItemOutput, error) {
+	if c.viaContext() {
+		return c.C.BatchWriteItemWithContext(context.Background(), in)
+	}
+	return c.C.BatchWriteItem(in)
+}
+
+func (c *V1) callTransactWriteItems(in *v1ddb.TransactWriteItemsInput) (*v1ddb.TransactWriteItemsOutput, error) {
+	if c.viaContext() {
+		return c.C.TransactWriteItemsWithContext(context.Background(), in)
+	}
+	return c.C.TransactWriteItems(in)
+}
+
+func (c *V1) callCreateTable(in *v1ddb.CreateTableInput) (*v1ddb.CreateTableOutput, error) {
+	if c.viaContext() {
+		return c.C.CreateTableWithContext(context.Background(), in)
+	}
+	return c.C.CreateTable(in)
+}
+
+func (c *V1) callDeleteTable(in *v1ddb.DeleteTableInput) (*v1ddb.DeleteTableOutput, error) {
+	if c.viaContext() {
+		return c.C.DeleteTableWithContext(context.Background(), in)
+	}
+	return c.C.DeleteTable(in)
+}
+
+func (c *V1) callDescribeTable(in *v1ddb.DescribeTableInput) (*v1ddb.DescribeTableOutput, error) {
+	if c.viaContext() {
+		return c.C.DescribeTableWithContext(context.Background(), in)
+	}
+	return c.C.DescribeTable(in)
+}
+
+func (c *V1) callUpdateTable(in *v1ddb.UpdateTableInput) (*v1ddb.UpdateTableOutput, error) {
+	if c.viaContext() {
+		return c.C.UpdateTableWithContext(context.Background(), in)
+	}
+	return c.C.UpdateTable(in)
 }
